@@ -226,7 +226,7 @@ def main(tier):
         return 1 if rejected else 0
     h = make_harness()
     ex = Explorer('C13', tier, h, 'desc', 'c13.py')
-    ex.deadline = time.time() + (100 if tier == 'quick' else 540)
+    ex.deadline = time.time() + (200 if tier == 'quick' else 1500)
     # which of the calls wasi.c leaves unimplemented: they answer NOSYS on a live descriptor and are outside the alphabet
     probe = ['of,0 u,%s,4,0' % s for s in STUBS]
     uses, unimpl = list(USES), []
@@ -236,7 +236,7 @@ def main(tier):
             unimpl.append(s)
         else:
             uses.append(s)
-    depth = explore(ex, 4 if tier == 'quick' else 6, uses)
+    depth = explore(ex, 4 if tier == 'quick' else 7, uses)
     rule = ('breadth-first search over histories of path_open(file|directory), fd_close(x) and one of %d descriptor-taking calls on x, '
             'x in {0,1,2,pre-open,every issued number,next unissued,1000,2^32-1}, both name spaces; one history per distinct table state '
             '(number, kind, live, directory stream open) is extended; distinct_nontrivial = distinct (call, errno) pairs observed' % len(uses))
